@@ -34,6 +34,7 @@ ASSUMPTIONS = [
     "restricts the kind of change, not the location",
 ]
 
+LONG_MEMBER = "Long_" + "AbCdEfGhIj" * 14          # 145 characters
 ENUM_LEVEL = ["LOW", "High", "mid"]
 ENUM_STATUS = ["ACTIVE", "Active", "DONE"]      # case-colliding members
 SCHEMAS = {
@@ -41,17 +42,19 @@ SCHEMAS = {
             ("COUNT", "3", "TYPE[NUMBER]"), ("RATIO", "1", "OPT∧TYPE[NUMBER]∧RANGE[0,10]"), ("NAME", '"x"', "REQ∧TYPE[STRING]"),
             ("TAGS", '["a"]', "TYPE[LIST]"), ("FLAG", "true", "TYPE[BOOLEAN]")],
     "RPB": [("KIND", '"A"', "ENUM[A,AB,ABC]∧REQ"), ("N", "1", "REQ∧TYPE[NUMBER]"), ("M", "1", "TYPE[NUMBER]∧ENUM[1,2]"),
-            ("UNIT", '"mb"', "ENUM[mb,Mb,MB,kb]"), ("TIER", '"aa"', "ENUM[aa,aA,Aa,AA,b]")],      # 3- and 4-way case collisions
+            ("UNIT", '"mb"', "ENUM[mb,Mb,MB,kb]"), ("TIER", '"aa"', "ENUM[aa,aA,Aa,AA,b]"),      # 3- and 4-way case collisions
+            ("LONGV", '"x"', f"ENUM[{LONG_MEMBER},short]")],      # a member longer than any plausible display / log limit
 }
 ENUMS = {("RPA", "STATUS"): ENUM_STATUS, ("RPA", "LEVEL"): ENUM_LEVEL, ("RPB", "KIND"): ["A", "AB", "ABC"], ("RPB", "M"): ["1", "2"],
-         ("RPB", "UNIT"): ["mb", "Mb", "MB", "kb"], ("RPB", "TIER"): ["aa", "aA", "Aa", "AA", "b"]}
+         ("RPB", "UNIT"): ["mb", "Mb", "MB", "kb"], ("RPB", "TIER"): ["aa", "aA", "Aa", "AA", "b"], ("RPB", "LONGV"): [LONG_MEMBER, "short"]}
 NUMBER_FIELDS = {("RPA", "COUNT"), ("RPA", "RATIO"), ("RPB", "N"), ("RPB", "M")}
 GOOD = {"RPA": {"STATUS": "ACTIVE", "LEVEL": "LOW", "COUNT": "3", "RATIO": "1", "NAME": '"n"', "TAGS": '["a"]', "FLAG": "true"},
-        "RPB": {"KIND": "A", "N": "1", "M": "1", "UNIT": "mb", "TIER": "aa"}}
+        "RPB": {"KIND": "A", "N": "1", "M": "1", "UNIT": "mb", "TIER": "aa", "LONGV": "short"}}
 
 NUMERIC_STRINGS = ["42", " 42 ", "+5", "-7", "1e5", "1E5", "1_000", "1e309", "-1e309", "1e-400", "nan", "inf", "-inf", "0x10", "١٢", "-0",
                    "4.0", "0.1", "0.10000000000000000001", "9007199254740993", "123456789012345678901234567890", "", " ", "abc", "4 2",
-                   "1e", "--1", "1.", ".5", "1,5", "٣.٥", "1e+5", "5e-324", "1.7976931348623157e308", "2.5e-1", "00012", "1__0"]
+                   "1e", "--1", "1.", ".5", "1,5", "٣.٥", "1e+5", "5e-324", "1.7976931348623157e308", "2.5e-1", "00012", "1__0",
+                   "7" * 150, "-" + "3" * 130, "1" + "0" * 125 + ".0"]
 WRONG_KINDS = ["true", "[1]", "42", "4.5", "null", "ZONE"]
 
 
@@ -65,6 +68,9 @@ def case_variants(s: str):
 def enum_perturbations(members):
     out = set()
     for m in members:
+        if len(m) > 20:      # 2^len case variants is not enumerable: the three whole-word foldings and one single-letter flip
+            out.update([m.lower(), m.upper(), m.swapcase(), m[:-1] + m[-1].swapcase(), m[:60]])
+            continue
         out.update(case_variants(m))
         for i in range(1, len(m)):
             out.add(m[:i])
@@ -337,6 +343,34 @@ def check(case) -> Res:
         if norm(dmap(after)) != norm(dmap(before)) or any(c.get("tier") == "REPAIR" for c in rs.get("corrections", [])):
             viol.append(dict(descriptor="write.strict:repaired", case=cs, observed=rs.get("corrections"), expected="strict write never repairs"))
         os.unlink(path)
+    # ---- route 3b: an EXISTING file holding x, rewritten through the modes that carry no content: normalize and changes, with
+    #      lenient omitted / false (fix off: no value may change, nothing may be logged as REPAIR, dry runs included) and lenient on
+    for mode_kw, tag in ((({}, "normalize"), ({"changes": {"ZZ_ADDED": 1}}, "changes")) if (not _CFG["quick"] or placement in ("block", "top+section")) else ()):
+        for lk, fixon in (({}, False), ({"lenient": False}, False), ({"lenient": True}, True)):
+            for dry in (True, False):
+                with open(path, "w", encoding="utf-8", newline="") as f:
+                    f.write(x)
+                rn = sl.call("w", target_path=path, schema=schema, **mode_kw, **lk, **({"corrections_only": True} if dry else {}))
+                steps += 1
+                reps = [c for c in (rn.get("corrections") or []) if c.get("tier") == "REPAIR"]
+                if rn.get("status") == "success" and not dry:
+                    try:
+                        after = parse(open(path, "rb").read().decode("utf-8"))
+                    except Exception as e:
+                        viol.append(dict(descriptor=f"write.{tag}:file-unreadable", case=cs, observed=str(e), expected="readable"))
+                        continue
+                    if mode_kw:
+                        after.sections = [s_ for s_ in after.sections if getattr(s_, "key", None) != "ZZ_ADDED"]
+                    if fixon:
+                        ents = [dict(rule_id=c["code"], before=c["before"], after=c["after"], tier=c.get("tier")) for c in reps]
+                        viol += judge(schema, before, after, ents, f"write.{tag}.lenient", cs)
+                    elif norm(dmap(after)) != norm(dmap(before)) or reps:
+                        viol.append(dict(descriptor=f"write.{tag}.fix_off:repaired", case=cs, observed=f"corrections={reps} file={open(path, encoding='utf-8').read()!r}"[:500],
+                                         expected="with fix off (lenient omitted or false) no value changes and no REPAIR entry"))
+                elif dry and not fixon and reps:
+                    viol.append(dict(descriptor=f"write.{tag}.fix_off:dry-run-reports-repairs", case=cs, observed=str(reps)[:300], expected="no REPAIR entry with fix off"))
+    if os.path.exists(path):
+        os.unlink(path)
     # ---- route 4: CLI validate --fix
     src = sl.workfile("c")
     with open(src, "w", encoding="utf-8", newline="") as f:
@@ -413,7 +447,11 @@ def check_builtin(case) -> Res:
     return Res("changed" if viol else "ok", nontrivial=val, violations=viol, transitions=4)
 
 
+_CFG = {"quick": True}
+
+
 def run(ctx):
+    _CFG["quick"] = ctx.quick
     ctx.explore("builtin_meta", enum_perturbations(META_STATUS), check_builtin, chunk=10)
     cases = space()
     ctx.coverage["bounds"] = {"schemas": {k: [f[0] + ":" + f[2] for f in v] for k, v in SCHEMAS.items()}, "numeric_strings": NUMERIC_STRINGS,
